@@ -208,12 +208,22 @@ Definition modifies_data (m : bytes) : bool :=
 Definition ctype_ok (r : request) : bool :=
   if r_clen r =? 0 then eqb_bytes (r_ctype r) [] else eqb_bytes (r_ctype r) str_json.
 
-(** [ensure]: the control lock it takes for modifying methods serialises the
-    handlers and has no effect on the decision. *)
-Definition ensure (m : bytes) (h : H) : H := fun e w r =>
-  if negb (eqb_bytes (r_method r) m) then (w, AStatus 405)
-  else if modifies_data (r_method r) && negb (ctype_ok r) then (w, AStatus 415)
-  else h e w r.
+(** [ensure], with its two ingredients named (round 4).  [meq] is the
+    comparison of the request's method with the declared one: the code has
+    [m != method], byte-wise equality of the strings, so [eqb_bytes].  The
+    wrapped handler is told whether [globalContext.controlLock] is held while
+    it runs: the lock is taken exactly when [modifiesData(r.Method)], after
+    [ensureContentType] has passed.  [modifiesData] looks at the method AS
+    SENT, not at the declared one. *)
+Definition ensure_gen (meq : bytes -> bytes -> bool) (m : bytes) (h : bool -> H) : H := fun e w r =>
+  if negb (meq (r_method r) m) then (w, AStatus 405)
+  else if modifies_data (r_method r) then
+    if negb (ctype_ok r) then (w, AStatus 415) else h true e w r
+  else h false e w r.
+
+(** [ensure] as the other wrappers see it: the lock serialises the handlers
+    and has no effect on the decision. *)
+Definition ensure (m : bytes) (h : H) : H := ensure_gen eqb_bytes m (fun _ => h).
 
 (** * Chains *)
 
@@ -241,7 +251,23 @@ Definition apply_chain (ws : list wrapper) (h : H) : H := fold_right apply_wrapp
 Definition http_register_chain (m : bytes) : list wrapper :=
   [WPostInstall; WOptionalAuth; WGzip; WEnsure m].
 
+(** The same chains in front of a handler that is told whether the control
+    lock is held (round 4): only [ensure] takes it. *)
+Definition apply_wrapper_l (x : wrapper) (h : bool -> H) : bool -> H := fun b =>
+  match x with
+  | WEnsure m => ensure_gen eqb_bytes m (fun b' => h (b || b'))
+  | _ => apply_wrapper x (h b)
+  end.
+
+Definition apply_chain_l (ws : list wrapper) (h : bool -> H) : bool -> H := fold_right apply_wrapper_l h ws.
+
 End Wrappers.
+
+(** [strings.EqualFold] restricted to ASCII letters (it folds more: U+017F,
+    U+212A; a method token on the wire is ASCII).  NOT what [ensure] uses: it
+    is here for the refuted variant [ensure_gen equal_fold]. *)
+Definition ascii_lower (c : N) : N := if ((65 <=? c) && (c <=? 90))%N then (c + 32)%N else c.
+Definition equal_fold (a b : bytes) : bool := eqb_bytes (map ascii_lower a) (map ascii_lower b).
 
 (** * Start-up: what decides [e_auth_present]
 
